@@ -389,10 +389,14 @@ class Optic:
 
     def update(self):
         """
-        Update the surfaces based on the pickup operations.
+        Update the surfaces based on the pickup and solve operations.
         """
-        self.pickups.apply()
-        self.solves.apply()
+        # a pickup may read what another pickup or a solve writes: repeat so
+        # that every pickup and solve holds on return (one pass per operation
+        # suffices when the dependencies are acyclic)
+        for _ in range(max(1, len(self.pickups) + len(self.solves))):
+            self.pickups.apply()
+            self.solves.apply()
 
     def image_solve(self):
         """Update the image position such that the marginal ray crosses the
